@@ -572,6 +572,9 @@ func ClassifyRcpt(arg string, ext Ext) (Class, RcptExp) {
 			case "UTF-8":
 				v, ok := DecodeUTF8AddrRef(tv[1])
 				if !ok || v == "" {
+					if utf8AddrClearlyInvalid(tv[1]) {
+						return Invalid, RcptExp{Why: "embedded code point that is no Unicode scalar value (zero, surrogate, beyond U+10FFFF)"}
+					}
 					weaken("utf-8 address form not decodable by the reference")
 					break
 				}
@@ -609,6 +612,37 @@ func ClassifyRcpt(arg string, ext Ext) (Class, RcptExp) {
 	}
 	exp.Why = why
 	return class, exp
+}
+
+// utf8AddrClearlyInvalid: v contains an embedded "\x{HEX}" (upper-case hex digits) whose value no HEXPOINT form of
+// RFC 6533 section 3 can denote: zero, a surrogate, or beyond U+10FFFF. (Other undecodable forms - lower-case hex,
+// leading zeros, an encoded printable character - are left unjudged.)
+func utf8AddrClearlyInvalid(v string) bool {
+	for i := 0; i+3 < len(v); i++ {
+		if !strings.HasPrefix(v[i:], `\x{`) {
+			continue
+		}
+		j := strings.IndexByte(v[i:], '}')
+		if j < 4 {
+			continue
+		}
+		hex := v[i+3 : i+j]
+		if strings.Trim(hex, "0123456789ABCDEF") != "" {
+			continue
+		}
+		sig := strings.TrimLeft(hex, "0")
+		if sig == "" {
+			return true // zero
+		}
+		if len(sig) > 6 {
+			return true
+		}
+		n, _ := strconv.ParseUint(sig, 16, 32)
+		if n > 0x10FFFF || (n >= 0xD800 && n <= 0xDFFF) {
+			return true
+		}
+	}
+	return false
 }
 
 // DecodeUTF8AddrRef decodes utf-8-addr-xtext / utf-8-addr-unitext (RFC 6533
